@@ -69,7 +69,8 @@ fn strict(cfg: &Cfg, model: &Model, tag: &str, it: &Item, k: usize, sk: &mut Sin
         }
         let mut tbl = ModelTable::new();
         let j = model.judge(cfg, &mut tbl, f, o.reply.as_deref());
-        let must_answer = j.abstained.is_none() && !j.class.contains("silent") && !j.class.starts_with("abstain");
+        let lenient_valid = j.abstained.as_deref() == Some("dns-trailing-bytes");
+        let must_answer = lenient_valid || (j.abstained.is_none() && !j.class.contains("silent") && !j.class.starts_with("abstain"));
         if !must_answer {
             sk.violation(Violation {
                 prop: "C12".into(),
@@ -88,7 +89,7 @@ pub fn run(rep: &mut Report, thorough: bool) {
     rep.rule = "(a) every distinct reply the responder produces for the base corpus (both transports, both IP versions), re-addressed to it; (b) protocol-marked replies built directly: ARP op 2, ICMP type 0, ICMPv6 129/136, every TCP flag set containing RST or equal to SYN|ACK, DNS all 32768 flag words with QR=1 x question counts 0..3 x answer counts 0..2, STUN all 65536 message-type words on 20- and 28-byte messages, SMB1 all 256 flag bytes x {negotiate, session setup}, SMB2 response flag x all 65536 commands, ONC-RPC message type all 256 low-byte values over TCP and UDP with reply bodies; (c) reflection chains m -> readdress(reply(m)) to silence (cap 4). Oracle: no reply unless the reference grammars say the bytes are a valid request that must be answered; chain length <= 2".into();
     rep.assumptions = vec![
         "SSH banners, Gh0st frames and FIN|ACK segments are not protocol-marked replies (those exchanges do not mark direction; C07 requires FIN|ACK to be answered by FIN|ACK) and are outside the chain clause".into(),
-        "in the dedicated sweeps a reply on which the reference model abstains counts as a violation (the statement allows a reply only for a valid request of another protocol)".into(),
+        "in the dedicated sweeps a reply on which the reference model abstains counts as a violation (the statement allows a reply only for a valid request of another protocol); the one exception is a well-formed DNS query followed by extra bytes, which is accepted as a valid DNS request".into(),
     ];
     for cfg in [cfg_plain(), cfg_lists()] {
         let tag = if cfg.self_ips.is_empty() { "plain" } else { "lists" };
@@ -158,7 +159,7 @@ pub fn run(rep: &mut Report, thorough: bool) {
                             let model = Model::new();
                             let mut tbl = ModelTable::new();
                             let j = model.judge(&cfg2, &mut tbl, &m, Some(&rr));
-                            let must = j.abstained.is_none() && !j.class.contains("silent") && !j.class.starts_with("abstain");
+                            let must = j.abstained.as_deref() == Some("dns-trailing-bytes") || (j.abstained.is_none() && !j.class.contains("silent") && !j.class.starts_with("abstain"));
                             if !must {
                                 rep.sink.violation(Violation {
                                     prop: "C12".into(),
@@ -314,6 +315,38 @@ pub fn run(rep: &mut Report, thorough: bool) {
             let m = if d[1] == 0 { b } else { apprpc::with_record_mark(&b) };
             flow4(111, 40000).udp(&m)
         });
+        // STUN messages of class indication / success / error as LATER messages of a TCP connection
+        // already identified as STUN (the only way such a message reaches the STUN responder)
+        {
+            let t0 = std::time::Instant::now();
+            let f = flow4(40000, 80);
+            let c = cookies.get(&key_of(&f)).copied().unwrap_or(0).wrapping_add(1);
+            let big = stun_magic(&stun_attr(0x8022, &[b'x'; 256]), &ID12);
+            let types: Vec<u16> = (0..=0xffffu16).filter(|t| t & 0x0110 != 0).collect();
+            let opts = RunOpts::new(&format!("stun-nonrequest-tcp-{}", tag)).stateful().chunk(128).no_monitor();
+            let cfgc = cfg.clone();
+            engine::run(
+                &cfg,
+                types.len() as u64 * 2,
+                &opts,
+                |i| {
+                    let ty = types[(i / 2) as usize];
+                    let mut m = if i % 2 == 0 { stun_magic(&[], &ID12) } else { stun_magic(&stun_attr(3, &[0, 0, 0, 2]), &ID12) };
+                    m[0] = (ty >> 8) as u8;
+                    m[1] = ty as u8;
+                    vec![Cmd::Frame(f.tcp(1000, c, F_PSH | F_ACK, &big)), Cmd::Frame(f.tcp(1000 + big.len() as u32, c, F_PSH | F_ACK, &m))]
+                },
+                |it: &Item, sk: &mut Sink| {
+                    sk.count("frames", 2);
+                    let data = it.outs[2].reply.as_deref().and_then(crate::mask::app_payload).map(|(_, p)| p).unwrap_or_default();
+                    if !data.is_empty() {
+                        sk.violation(Violation { prop: "C12".into(), key: "reply-typed-answered:stun-tcp".into(), what: format!("STUN message of type {:#06x} (class indication / response) sent as a later message of a STUN connection answered with {}", types[(it.idx / 2) as usize], hex(&data[..data.len().min(32)])), cfg: cfgc.clone(), cmds: it.cmds.to_vec(), idx: it.idx, stage: "stun-nonrequest-tcp".into() });
+                    }
+                },
+                &mut rep.sink,
+            );
+            rep.stage(&format!("stun-nonrequest-tcp-{}", tag), "[>=256-byte Binding request] then every message-type word with a non-request class (49152) x {20-byte, 28-byte} on the same TCP connection", types.len() as u64 * 2, t0);
+        }
         if thorough {
             // RPC replies over TCP on a validated flow
             let t0 = std::time::Instant::now();
